@@ -125,13 +125,13 @@ META = dict(
                 "IsTriggering over-approximates Match and depends on the kind only, the cache is dropped by AddRule/Reset, hence a firing "
                 "event is never skipped after any history (cache_sound_ops, fired_event_not_skipped_ops); the scope trie answers with the flag "
                 "of the longest defined prefix (processEvent_exact_scope). Spec.fires ranges over the rules AddRule accepted "
-                "(indexed_characterised: first rule of each name, unless a rule of that name was refused before). Hypotheses: Rule.WF (kind "
+                "(indexed_characterised: a rule with kind and scope match whose name no earlier accepted rule has; a refused rule does not block its name since b2c3167). Hypotheses: Rule.WF (kind "
                 "patterns non-empty as produced by strings.Split, state keys distinct as in a Go map). NOT modelled in Lean, only tested: "
                 "sink attributes -> Rule (rt_sink.go createRule) and addEvent's scope map (func_provider.go); constants 63, '*', '.' are typed "
                 "into the model, not extracted."),
     level_note=("Trusted: Lean kernel + propext/Classical.choice/Quot.sound; the correspondence harness; Go's regexp (truth table); "
                 "value equality classes computed by the harness. Readings: a self-suppressing rule never runs (spec follows the code, "
-                "property text says 'another'); known findings statematch-nonstring-key and addrule-refused-name-registered (see known_findings.txt)."),
+                "property text says 'another'); known finding statematch-nonstring-key (see known_findings.txt)."),
 )
 
 
